@@ -520,6 +520,18 @@ func (H) execConc(x *common.Exec, sc *Scenario) {
 		}
 	}
 	x.NonTrivial = len(allRegs) > 0 && nu > 0 && nt >= 2
+	for _, us := range upds {
+		for _, u := range us {
+			for _, r := range allRegs {
+				if r.addInv < u.ret && u.inv < r.addRet {
+					x.Fault("update-overlaps-registration")
+				}
+				if r.rmInv != 0 && r.rmInv < u.ret && u.inv < r.rmRet {
+					x.Fault("update-overlaps-removal")
+				}
+			}
+		}
+	}
 	h := fnv.New64a()
 	fmt.Fprint(h, ncalls)
 	x.StateHash = uint64(len(ncalls))<<32 ^ h.Sum64()
